@@ -62,6 +62,15 @@ Theorem C09_index_frame :
 Proof. exact index_frame_ok. Qed.
 Print Assumptions C09_index_frame.
 
+(* the writer seals at most its last batch, and the IndexStart it reports is the
+   README's: the offset of the index array of that batch (0 when unsealed) *)
+Theorem C09_index_start_readme :
+  forall info ops w acts bs,
+    wrun (init_empty info) ops = Some (w, acts, bs) -> len (layout (hdr_of info) bs) < two32 ->
+    only_last_sealed bs /\ w_index_start w = rs_index_start bs.
+Proof. exact index_start_readme. Qed.
+Print Assumptions C09_index_start_readme.
+
 (* header fields = metadata; the model's file name = the README's name format
    (for every base, id: both print 20 decimal / 16 hex digits, which is all of a
    uint64; the Go probe in constants_match_readme ties Sprintf to it) *)
